@@ -223,6 +223,29 @@ func AddCanonStress(r *rng.R, w *World) {
 		}
 		w.NetPols = append(w.NetPols, np)
 	}
+	// complementary policies: each holds all three protocols, together they cover everything (the union that completes the
+	// set adds no new protocol)
+	if r.P(0.5) {
+		wl := rng.Pick(r, w.Workloads)
+		ing := r.P(0.5)
+		var lo, hi []NPPort
+		for _, pr := range Protos {
+			cut := rng.Pick(r, []int{1, 79, 80, 1023, 32768, 65534})
+			lo = append(lo, NPPort{Proto: pr, Port: 1, EndPort: cut})
+			hi = append(hi, NPPort{Proto: pr, Port: cut + 1, EndPort: 65535})
+		}
+		for k, ports := range [][]NPPort{lo, hi} {
+			np := NetPol{Ns: wl.Ns, Name: fmt.Sprintf("compl%d", k), PodSel: *SelFor(r, wl.Labels), HasTypes: true}
+			rule := NPRule{Ports: ports}
+			if ing {
+				np.Ingress, np.PolicyTypes = []NPRule{rule}, []string{"Ingress"}
+			} else {
+				np.Egress, np.PolicyTypes = []NPRule{rule}, []string{"Egress"}
+			}
+			w.NetPols = append(w.NetPols, np)
+		}
+		w.AddFeature("complementaryPolicies")
+	}
 	w.AddFeature("canonStress")
 	TagNetPolFeatures(w)
 }
